@@ -62,6 +62,13 @@ CHECKS = {
         "text": "Histories biased to directory operations (nested creation bursts, arrive-then-rename, rename chains incl. ancestors, move-in of pre-built trees, relative and absolute roots, recursive and non-recursive) run against the real InotifyObserver; afterwards every directory enumerated from disk receives a uniquely named probe file whose FileCreatedEvent must arrive under exactly the real path before the following sentinel; a non-recursive watch must report nothing deeper than the root's children.",
         "note": "Same trust base as C01. A nested creation burst whose top directory is renamed in the same burst is not generated (the rename changes the names of directories created moments earlier - outside the pacing condition).",
     },
+    "C03": {
+        "engine": "fsops",
+        "design_ref": "DESIGN.md §4 C03",
+        "technique": "property-based testing: (a) generated histories on the real kernel with every delivered event judged by a justification rule derived from the operation history; (b) exhaustive state x single-op cells compared with the statement's per-operation contract",
+        "text": "Soundness: histories as in C01 plus nested creation bursts and operations on entries that left the tree, normal and full emitter; each event of each drain window must name an in-scope entry of the right kind that the window's operations created/removed/renamed/modified in that way, moves must join old and new name of one entry, synthetic only below a directory that arrived by a move. Completeness: every tree state of a small universe x every single op x recursive x full: the statement's required events must all arrive, structural events must be exactly the required ones, all else must be justified.",
+        "note": "Same trust base as C01 plus vlib/justify.py. Identical adjacent events count once (queue coalescing). A move degraded to deleted+created is re-executed up to 3 times before it is reported (pairing is time based).",
+    },
 }
 
 ALL = [f"C{i:02d}" for i in range(1, 21)]
